@@ -71,8 +71,15 @@ def _app(r, c, v, mul):
     return [0, r, c, v, c + mul * r]
 
 
-def _rand_ops(rng, n, nrow, ncol, finals=True):
+def _rand_ops(rng, n, nrow, ncol, finals=True, big=None):
+    """`big` = (row offset, column offset, key multiplier): a few distinct cells far from the origin, so that the
+    int64 keys exceed 2^24 / 2^31 / 2^40 (a vocabulary of a few thousand tokens already gives keys above 2^24)
+    and neighbouring keys differ by 1: anything that carries keys through a narrower or floating type merges
+    or separates the wrong cells"""
     mul = ncol + 1
+    r0 = c0 = 0
+    if big:
+        r0, c0, mul = big
     ops = []
     for _ in range(n):
         x = rng.random()
@@ -81,7 +88,7 @@ def _rand_ops(rng, n, nrow, ncol, finals=True):
         elif finals and x < 0.05:
             ops.append([3])
         else:
-            ops.append(_app(rng.randrange(nrow), rng.randrange(ncol), rng.choice([1, 1, 1, 2, 3]), mul))
+            ops.append(_app(r0 + rng.randrange(nrow), c0 + rng.randrange(ncol), rng.choice([1, 1, 1, 2, 3]), mul))
     ops.append([3])
     return ops
 
@@ -195,7 +202,11 @@ def _generate(rng, tier):
             n = rng.choice([5, 20, 60, 150] if not thorough else [5, 20, 60, 150, 400, 1200])
             extra = ("bc4", "nojit4") if lim == 4 and n <= 150 else (("bc4",) if lim == 4 else ())
             small = n * min(n, nrow * ncol) <= 20_000          # bounds the size of the reported states
-            cs.append(_kcase(cap, lim, _rand_ops(rng, n, nrow, ncol), every=1 if small else rng.choice([7, 23]),
+            big = None
+            if rng.random() < 0.25:
+                ntok = rng.choice([3000, 5000, 46000, 1_000_000])       # keys up to ~2e7, 5e7, 4e9, 2e12
+                big = (ntok - nrow - rng.randrange(3), ntok - ncol - rng.randrange(3), 2 * ntok)
+            cs.append(_kcase(cap, lim, _rand_ops(rng, n, nrow, ncol, big=big), every=1 if small else rng.choice([7, 23]),
                              raw=small and (thorough or rng.random() < 0.3), extra_modes=extra))
     # ---- kernel level, real limit: small caps (merge-all regime) and big caps (multi-level regime)
     for _ in range(6 if not thorough else 40):
